@@ -67,26 +67,6 @@ mod pinned {
   }
 }
 #[cfg(pinned_twin)]
-fn rename_case(r: &mut key_transforms::Rng, mut layout: keys::Layout, mut hist: Vec<keys::Event>) -> (keys::Layout, Vec<keys::Event>) {
-  use key_codes::KeyCode; use keys::Event;
-  let is_mod = |k: KeyCode| matches!(k, KeyCode::LEFTSHIFT | KeyCode::RIGHTSHIFT | KeyCode::LEFTALT | KeyCode::RIGHTALT | KeyCode::LEFTCTRL | KeyCode::RIGHTCTRL | KeyCode::LEFTMETA | KeyCode::RIGHTMETA);
-  let all: Vec<KeyCode> = loader_probe::all_key_codes().into_iter().filter(|k| !is_mod(*k) && *k != KeyCode::KPJPCOMMA).collect();
-  let twins: Vec<(KeyCode, KeyCode)> = all.iter().flat_map(|a| all.iter().filter(move |b| { let (x, y) = (*a as i32, **b as i32); y > x && (y - x) % 256 == 0 }).map(move |b| (*a, *b))).collect();
-  let mut used: Vec<KeyCode> = Vec::new();
-  for m in &layout.mappings { for k in m.from.iter().chain(m.to.iter()).chain(m.absorbing.iter()) { if !used.contains(k) { used.push(*k); } } if let keys::Repeat::Special { keys, .. } = &m.repeat { for k in keys { if !used.contains(k) { used.push(*k); } } } }
-  for e in &hist { let k = match e { Event::Pressed(k) | Event::Released(k) => *k }; if !used.contains(&k) { used.push(k); } }
-  let (ta, tb) = twins[r.below(twins.len())];
-  let mut map: Vec<(KeyCode, KeyCode)> = Vec::new();
-  for k in used { if is_mod(k) || k == KeyCode::KPJPCOMMA { continue; }
-    let mut n = if !map.iter().any(|p| p.1 == ta) { ta } else if !map.iter().any(|p| p.1 == tb) { tb } else { all[r.below(all.len())] };
-    while map.iter().any(|p| p.1 == n) { n = all[r.below(all.len())]; }
-    map.push((k, n)); }
-  let f = |k: &mut KeyCode| { if let Some(p) = map.iter().find(|p| p.0 == *k) { *k = p.1; } };
-  for m in layout.mappings.iter_mut() { m.from.iter_mut().for_each(&f); m.to.iter_mut().for_each(&f); m.absorbing.iter_mut().for_each(&f); if let keys::Repeat::Special { keys, .. } = &mut m.repeat { keys.iter_mut().for_each(&f); } }
-  for e in hist.iter_mut() { match e { Event::Pressed(k) | Event::Released(k) => f(k) } }
-  (layout, hist)
-}
-#[cfg(pinned_twin)]
 fn twin(unit: &str, n: u64, seed: u64) -> i32 {
   std::panic::set_hook(Box::new(|_| {}));
   let mut diffs: Vec<serde_json::Value> = Vec::new();
@@ -97,7 +77,7 @@ fn twin(unit: &str, n: u64, seed: u64) -> i32 {
       let (layout, hist) = key_transforms::gen_case(&mut r, true);
       // rare shapes: one case in four has its non-modifier keys renamed (injectively) to keys from the WHOLE key-code range, among them pairs of codes
       // that agree modulo 256 (a change that narrows a key code treats such keys as one); the comparison is current text against pinned text, so any renaming is fair
-      let (layout, hist) = if r.below(4) == 0 { rename_case(&mut r, layout, hist) } else { (layout, hist) };
+      let (layout, hist) = if r.below(5) == 0 { key_transforms::rename_keys(&mut r, layout, hist) } else { (layout, hist) };
       let (l1, h1) = (layout.clone(), hist.clone());
       // (a panic counts as an answer: both must panic at the same step, or neither)
       let run = std::panic::catch_unwind(move || {
